@@ -252,6 +252,16 @@ def run_kani(crate, scratch, h, prop, extra_args=(), tag="", extra_cfg=(), timeo
     if out is None:
         out = procs[0][3].read_text(errors="replace")
     wall = time.time() - t0
+    name_map = {}
+    if h.recbound:
+        for sv, p, tgt, logf, fh in procs:
+            for f in tgt.glob("**/*pretty_name_map.json"):
+                try:
+                    for mangled, pretty in json.loads(f.read_text()).items():
+                        if pretty:
+                            name_map.setdefault(pretty, mangled)
+                except Exception:
+                    pass
     for sv, p, tgt, logf, fh in procs:
         shutil.rmtree(tgt, ignore_errors=True)
         if not os.environ.get("VERIF_KEEP"):
@@ -260,7 +270,7 @@ def run_kani(crate, scratch, h, prop, extra_args=(), tag="", extra_cfg=(), timeo
             except OSError:
                 pass
     res = parse_kani(out)
-    res.update({"harness": h.name, "wall": wall, "timed_out": timed_out, "rc": winner[1].returncode, "raw": out, "solver": winner[0]})
+    res.update({"harness": h.name, "wall": wall, "timed_out": timed_out, "rc": winner[1].returncode, "raw": out, "solver": winner[0], "name_map": name_map})
     return res
 
 
@@ -273,8 +283,13 @@ def run_harness(crate, scratch, h, prop):
     r = run_kani(crate, scratch, h, prop)
     if not h.recbound or r["verdict"] is None:
         return r
-    names = set(re.findall(r"Unwinding recursion (\S+) iteration", r["raw"]))
-    own = sorted(n for n in names if "lru_mem" in n and "verif_harness" not in n)
+    names = set(re.findall(r"^Unwinding recursion (.+) iteration \d+", r["raw"], re.M))
+    own = []
+    for pretty in sorted(names):
+        mangled = r["name_map"].get(pretty)
+        # the crate's own functions only (v0 mangling embeds the crate name); not the harness
+        if mangled and "7lru_mem" in mangled and "verif_harness" not in mangled.split("7lru_mem", 1)[1][:20]:
+            own.append(mangled)
     r["recursive_functions"] = own
     if not own:
         return r
@@ -390,7 +405,7 @@ def native_replay(scratch, prop, harness_name, vals, profiles=("dev", "release")
     """Runs the harness natively with the recorded values against real hashbrown.
     Returns list of (profile, rc, output)."""
     run = prepare_replay_crate(scratch)
-    cex = scratch / ("cex-%s-%s.json" % (prop, harness_name))
+    cex = scratch / ("cex-%s-%s.json" % (prop, harness_name.replace("#", "_")))
     cex.write_text(json.dumps({"harness": harness_name, "vals": vals}))
     outs = []
     for prof in profiles:
@@ -492,7 +507,32 @@ def check_property(prop, tier, seed):
     return rc
 
 
+def validate_model():
+    """Differential validation of the hashbrown contract model against the real
+    crate (native, a few seconds). Returns (ok, summary line)."""
+    d = VERIF / "model" / "validate"
+    env = dict(os.environ)
+    env["CARGO_NET_OFFLINE"] = "true"
+    env.pop("RUSTFLAGS", None)
+    try:
+        p = subprocess.run(["cargo", "run", "--release", "-q", "--offline", "--", "3"], cwd=d, env=env, stdout=subprocess.PIPE, stderr=subprocess.STDOUT, text=True, timeout=900)
+    except subprocess.TimeoutExpired:
+        return False, "model validation timed out"
+    line = [l for l in p.stdout.splitlines() if l.startswith("MODEL-VALIDATION")]
+    return p.returncode == 0 and bool(line), (line[0] if line else p.stdout[-400:])
+
+
+MODEL_INFO = {"line": "not run"}
+
+
 def _check_property(prop, tier, seed, sel, scratch, t_start):
+    if any(h.module != "memsize" for h in sel):
+        ok, line = validate_model()
+        MODEL_INFO["line"] = line
+        log("  stub validation: " + line)
+        if not ok:
+            log("INCONCLUSIVE: the hashbrown contract model disagrees with the real crate")
+            return 2
     crate = prepare_kani_crate(scratch)
     findings = load_findings()
     workers = int(os.environ.get("VERIF_JOBS", str(min(NCPU, 16))))
@@ -511,7 +551,8 @@ def _check_property(prop, tier, seed, sel, scratch, t_start):
                 log("      note: " + n.splitlines()[0])
 
     violations, known, inconclusive = [], [], []
-    for h in sel:
+    also_failing = []
+    for h in sorted(sel, key=lambda h: results[h.name]["wall"]):
         r = results[h.name]
         cl = r["class"]
         if cl["status"] == "inconclusive":
@@ -527,26 +568,41 @@ def _check_property(prop, tier, seed, sel, scratch, t_start):
                     remaining.append(f)
             if not remaining:
                 continue
+            if violations and not os.environ.get("VERIF_REPLAY_ALL"):
+                # one reproduced violation decides the run; further failing harnesses are listed only
+                also_failing.append((h.name, remaining))
+                continue
             # extract the counterexample and replay it natively
             log("  %s: %d failing check(s); extracting counterexample ..." % (h.name, len(remaining)))
-            r2 = run_kani(crate, scratch, h, prop, ["-Z", "concrete-playback", "--concrete-playback=print"], tag="-cex", extra_cfg=["vp_nocover"], timeout_factor=4)
-            tests = extract_values(r2["raw"])
-            want = set(f["desc"] for f in remaining)
-            tests = [t[2] for t in tests if t[1] in want] + [t[2] for t in tests if t[1] not in want and t[0] != "cover"]
+            if all(f.get("cls") == "recursion" for f in remaining):
+                # recursion depth grows with the element count: the native witness is the
+                # same computation on millions of elements (stack exhaustion in the dev profile)
+                tests = [None]
+            else:
+                r2 = run_kani(crate, scratch, h, prop, ["-Z", "concrete-playback", "--concrete-playback=print"], tag="-cex", extra_cfg=["vp_nocover"], timeout_factor=4)
+                tests = extract_values(r2["raw"])
+                want = set(f["desc"] for f in remaining)
+                tests = [t[2] for t in tests if t[1] in want] + [t[2] for t in tests if t[1] not in want and t[0] != "cover"]
             reproduced = None
             attempts = []
             for vals in tests[:6]:
-                outs = native_replay(scratch, prop, h.name, vals)
+                rname = h.name
+                if vals is None:
+                    rname = h.name + "#big"
+                    outs = native_replay(scratch, prop, rname, [], profiles=("dev",))
+                    vals = []
+                else:
+                    outs = native_replay(scratch, prop, h.name, vals)
                 ok, prof, what = replay_reproduces(outs, prop)
                 attempts.append({"vals": vals, "outs": [(p, c, o[-1500:]) for p, c, o in outs]})
                 if ok:
-                    reproduced = (vals, prof, what)
+                    reproduced = (vals, prof, what, rname)
                     break
             if reproduced:
                 (VERIF / "replays").mkdir(exist_ok=True)
                 path = VERIF / "replays" / ("%s-%s.json" % (prop, h.name))
                 path.write_text(json.dumps({
-                    "property": prop, "harness": h.name, "vals": reproduced[0], "profile": reproduced[1],
+                    "property": prop, "harness": reproduced[3], "vals": reproduced[0], "profile": reproduced[1],
                     "native_symptom": reproduced[2],
                     "cbmc_failures": [{"desc": f["desc"], "loc": f["loc"]} for f in remaining],
                     "harness_call": h.line,
@@ -565,6 +621,8 @@ def _check_property(prop, tier, seed, sel, scratch, t_start):
     write_evidence(prop, tier, seed, sel, results, violations, known, inconclusive, time.time() - t_start)
     for name, f, kf in known:
         log("KNOWN-FINDING: property=%s %s [%s: %s]" % (prop, kf["text"], name, f["desc"]))
+    for name, fails in also_failing:
+        log("  also failing (not replayed): %s: %s" % (name, "; ".join(sorted(set(f["desc"] for f in fails)))))
     for name, fails, path, rep in violations:
         log("  violated in %s: %s" % (name, "; ".join(f["desc"] for f in fails)))
         log("  native replay (%s profile): %s" % (rep[1], rep[2]))
@@ -619,7 +677,7 @@ def write_evidence(prop, tier, seed, sel, results, violations, known, inconclusi
             "queries_discharged": sum(r["sat_calls"] for r in results.values()),
             "solver_s": round(sum(r["solver_s"] for r in results.values()), 1),
             "symex_s": round(sum(r["symex_s"] for r in results.values()), 1),
-            "trusted_base": ["Kani/CBMC", "contract model of hashbrown::raw::RawTable (validated against the real crate natively)", "rustc MIR"],
+            "trusted_base": ["Kani/CBMC", "contract model of hashbrown::raw::RawTable, validated natively against hashbrown 0.14.5 on this run: " + MODEL_INFO["line"], "rustc MIR"],
             "inconclusive": [{"harness": n, "notes": [x[:300] for x in notes]} for n, notes in inconclusive],
             "known_findings": [{"harness": n, "check": f["desc"], "finding": kf["text"]} for n, f, kf in known],
             "exhaustive": False,
